@@ -238,6 +238,9 @@ EXTREME_UNIT = (0.0, _ONE_MINUS, 0.5, math.nextafter(0.5, 0.0), math.nextafter(0
                 2.0 ** -53, 1e-9, 1.0 - 1e-9)
 
 
+DRAW_CAP = 400000
+
+
 class SimRandom:
     """the `random` the optimisers see: a seeded generator plus, on a seeded subset of draws,
     extreme but legal values (DESIGN.md §4.5 prng_extreme)"""
@@ -263,6 +266,10 @@ class SimRandom:
 
     def _ext(self):
         self.draws += 1
+        if self.draws > DRAW_CAP:
+            # an optimiser loop that never terminates (e.g. offspring rejected forever) keeps drawing: turn the hang
+            # into a deterministic, replayable outcome instead of a wall-clock kill
+            raise kernel.Livelock('more than %d PRNG draws in one run' % DRAW_CAP)
         if self.p_ext and self.D.flag('prng', ('x', self.draws), self.p_ext):
             self.extremes += 1
             return True
